@@ -2418,16 +2418,15 @@ func (s *Server) serveConnCounted(c net.Conn, countConcurrency bool) error {
 			}
 
 			// If this is a keep-alive connection we want to try and read the first bytes
-			// within the idle time.
-			if connRequestNum > 1 {
-				var b []byte
-				b, err = br.Peek(1)
-				if len(b) == 0 {
-					// If reading from a keep-alive connection returns nothing it means
-					// the connection was closed (either timeout or from the other side).
-					if err != io.EOF {
-						err = ErrNothingRead{error: err}
-					}
+			// within the idle time. The first request is peeked as well, so that
+			// StateActive is only reported once a byte of the request has arrived.
+			var b []byte
+			b, err = br.Peek(1)
+			if len(b) == 0 {
+				// If reading from a keep-alive connection returns nothing it means
+				// the connection was closed (either timeout or from the other side).
+				if err != io.EOF {
+					err = ErrNothingRead{error: err}
 				}
 			}
 		} else {
